@@ -51,10 +51,46 @@ impl Term {
     }
 }
 
+/// How a triple line is tied to its neighbour in the formats that have statement punctuation (Turtle, N3)
+/// or property lists (RDF/XML). In N-Triples / N-Quads every triple line is its own `s p o .` line whatever
+/// the link. A linked pair is always (Open* at line i, its partner at line i+1), same subject (`OpenComma`:
+/// same predicate too).
+#[derive(Clone, Copy, Debug, PartialEq, Eq, Hash)]
+pub enum Link {
+    None,
+    /// Turtle/N3: `s p o ;` — the statement stays open and is finished by the next physical line
+    OpenNl,
+    /// Turtle/N3: `    p o .` — continuation line of an `OpenNl` line (the layout generate_turtle writes)
+    ContNl,
+    /// Turtle/N3: `s p o ; p2 o2 .` on ONE physical line, p2/o2 taken from the next abstract line
+    OpenSemi,
+    /// Turtle/N3: `s p o , o2 .` on ONE physical line, o2 taken from the next abstract line
+    OpenComma,
+    /// Turtle/N3: an empty physical line (the triple was written on the previous line); RDF/XML: nothing
+    Absorbed,
+}
+
+/// Physical layout of the line formats (RDF/XML is always written plain).
+#[derive(Clone, Copy, Debug, PartialEq, Eq, Hash)]
+pub enum Layout {
+    /// single spaces, ` .`, LF after every line
+    Plain,
+    /// CRLF line ends
+    CrLf,
+    /// TAB instead of the separating spaces
+    Tabs,
+    /// the last line has no line terminator
+    NoFinalNewline,
+    /// no white space before the closing `.` (`<o>.`)
+    TightDot,
+}
+
+pub const LAYOUTS: [Layout; 5] = [Layout::Plain, Layout::CrLf, Layout::Tabs, Layout::NoFinalNewline, Layout::TightDot];
+
 #[derive(Clone, Debug, PartialEq, Eq, Hash)]
 pub enum Line {
     /// `pname`: write IRIs through a declared prefix where one applies (Turtle, N3, RDF/XML predicates)
-    Triple { s: Term, p: Term, o: Term, g: Option<String>, pname: bool },
+    Triple { s: Term, p: Term, o: Term, g: Option<String>, pname: bool, link: Link },
     /// `@prefix name: <iri> .` (Turtle, N3); a comment line in N-Triples/N-Quads/RDF-XML (RDF/XML declares
     /// the namespace on the root element instead)
     Prefix { name: String, iri: String },
@@ -226,6 +262,11 @@ fn xml_namespaces(lines: &[Line]) -> Vec<(String, String)> {
 /// no quoted triples, no XML entities (text is not unescaped), text is trimmed and empty text dropped.
 /// Only N-Quads has a graph position.
 pub fn expressible(line: &Line, f: Format, all_lines: &[Line]) -> bool {
+    let ns = if f == Format::RdfXml { xml_namespaces(all_lines) } else { Vec::new() };
+    expressible_ns(line, f, &ns)
+}
+
+fn expressible_ns(line: &Line, f: Format, ns: &[(String, String)]) -> bool {
     let Line::Triple { s, p, o, g, .. } = line else { return true };
     if g.is_some() && f != Format::NQuads {
         return false;
@@ -234,9 +275,8 @@ pub fn expressible(line: &Line, f: Format, all_lines: &[Line]) -> bool {
         Format::NTriples | Format::NQuads | Format::Turtle => true,
         Format::N3 => !(s.has_quoted() || o.has_quoted()),
         Format::RdfXml => {
-            let ns = xml_namespaces(all_lines);
             let s_ok = matches!(s, Term::Iri(_));
-            let p_ok = matches!(p, Term::Iri(i) if pname_for(i, &ns).is_some());
+            let p_ok = matches!(p, Term::Iri(i) if pname_for(i, ns).is_some());
             let o_ok = match o {
                 Term::Iri(_) => true,
                 Term::Lit { value, lang: None, dt: None } => xml_text_ok(value),
@@ -255,13 +295,51 @@ pub fn document_expressible(lines: &[Line], f: Format) -> bool {
             return false;
         }
     }
-    lines.iter().all(|l| expressible(l, f, lines))
+    let ns = if f == Format::RdfXml { xml_namespaces(lines) } else { Vec::new() };
+    lines.iter().all(|l| expressible_ns(l, f, &ns))
+}
+
+/// A linked pair must be (Open* at i, its partner at i+1) with the same subject (`OpenComma`: same predicate
+/// too), no graph, and partners never appear alone. The generator of C13 only builds such documents; this is
+/// checked before rendering so that a generator slip is a machinery error, not a verdict.
+pub fn links_well_formed(lines: &[Line]) -> Result<(), String> {
+    let link_of = |l: &Line| match l {
+        Line::Triple { link, .. } => *link,
+        _ => Link::None,
+    };
+    for (i, l) in lines.iter().enumerate() {
+        let Line::Triple { s, p, link, .. } = l else { continue };
+        match link {
+            Link::None => {}
+            Link::OpenNl | Link::OpenSemi | Link::OpenComma => {
+                let Some(Line::Triple { s: s2, p: p2, link: l2, .. }) = lines.get(i + 1) else { return Err(format!("line {}: open link without a following triple line", i)) };
+                let want = if *link == Link::OpenNl { Link::ContNl } else { Link::Absorbed };
+                if *l2 != want || s2 != s || (*link == Link::OpenComma && p2 != p) {
+                    return Err(format!("line {}: link {:?} followed by {:?} / different subject or predicate", i, link, l2));
+                }
+            }
+            Link::ContNl | Link::Absorbed => {
+                let prev = if i == 0 { Link::None } else { link_of(&lines[i - 1]) };
+                let ok = if *link == Link::ContNl { prev == Link::OpenNl } else { matches!(prev, Link::OpenSemi | Link::OpenComma) };
+                if !ok {
+                    return Err(format!("line {}: partner link {:?} after {:?}", i, link, prev));
+                }
+            }
+        }
+    }
+    Ok(())
 }
 
 /// Render the abstract document. Line formats: exactly one physical line per abstract line, each
-/// terminated by LF. RDF/XML: header line, one line per abstract line, footer line (a literal containing
-/// LF spans physical lines; RDF/XML is not loaded line-wise).
+/// terminated by LF (layouts: CRLF / no terminator on the last line). RDF/XML: header line, one line per
+/// abstract line (a linked pair: one indented multi-line rdf:Description with two property elements — the
+/// layout generate_rdf_xml writes), footer line (a literal containing LF spans physical lines; RDF/XML is
+/// not loaded line-wise).
 pub fn render(lines: &[Line], f: Format) -> String {
+    render_with(lines, f, Layout::Plain)
+}
+
+pub fn render_with(lines: &[Line], f: Format, layout: Layout) -> String {
     let mut out = String::new();
     if f == Format::RdfXml {
         let ns = xml_namespaces(lines);
@@ -273,16 +351,33 @@ pub fn render(lines: &[Line], f: Format) -> String {
         }
         out.push_str(">\n");
         let mut declared: Vec<(String, String)> = vec![ns[0].clone()];
-        for l in lines {
+        // property element for (p, o)
+        let prop = |p: &Term, o: &Term, pname: bool, declared: &[(String, String)]| -> String {
+            let Term::Iri(p) = p else { panic!("not expressible in RDF/XML") };
+            // without `pname` the base namespace is used; with it the latest declared one
+            let q = if pname { pname_for(p, declared) } else { pname_for(p, &declared[..1]) }.or_else(|| pname_for(p, &ns)).expect("predicate namespace");
+            match o {
+                Term::Iri(o) => format!("<{} rdf:resource=\"{}\"/>", q, o),
+                Term::Lit { value, .. } => format!("<{}>{}</{}>", q, value, q),
+                _ => panic!("not expressible in RDF/XML"),
+            }
+        };
+        for (i, l) in lines.iter().enumerate() {
             match l {
-                Line::Triple { s, p, o, pname, .. } => {
-                    let (Term::Iri(s), Term::Iri(p)) = (s, p) else { panic!("not expressible in RDF/XML") };
-                    // without `pname` the base namespace is used; with it the latest declared one
-                    let q = if *pname { pname_for(p, &declared) } else { pname_for(p, &declared[..1]) }.or_else(|| pname_for(p, &ns)).expect("predicate namespace");
-                    match o {
-                        Term::Iri(o) => out.push_str(&format!("<rdf:Description rdf:about=\"{}\"><{} rdf:resource=\"{}\"/></rdf:Description>\n", s, q, o)),
-                        Term::Lit { value, .. } => out.push_str(&format!("<rdf:Description rdf:about=\"{}\"><{}>{}</{}></rdf:Description>\n", s, q, value, q)),
-                        _ => panic!("not expressible in RDF/XML"),
+                Line::Triple { s, p, o, pname, link, .. } => {
+                    let Term::Iri(s) = s else { panic!("not expressible in RDF/XML") };
+                    match link {
+                        Link::ContNl | Link::Absorbed => out.push('\n'),
+                        Link::None => out.push_str(&format!("<rdf:Description rdf:about=\"{}\">{}</rdf:Description>\n", s, prop(p, o, *pname, &declared))),
+                        Link::OpenNl | Link::OpenSemi | Link::OpenComma => {
+                            let Some(Line::Triple { p: p2, o: o2, pname: pn2, .. }) = lines.get(i + 1) else { panic!("open link without partner") };
+                            out.push_str(&format!(
+                                "  <rdf:Description rdf:about=\"{}\">\n    {}\n    {}\n  </rdf:Description>\n",
+                                s,
+                                prop(p, o, *pname, &declared),
+                                prop(p2, o2, *pn2, &declared)
+                            ));
+                        }
                     }
                 }
                 Line::Prefix { name, iri } => {
@@ -297,25 +392,72 @@ pub fn render(lines: &[Line], f: Format) -> String {
         return out;
     }
     let prefixed = matches!(f, Format::Turtle | Format::N3);
+    let sep = if layout == Layout::Tabs { '\t' } else { ' ' };
+    let eol = if layout == Layout::CrLf { "\r\n" } else { "\n" };
+    let dot = |out: &mut String| {
+        if layout != Layout::TightDot {
+            out.push(sep);
+        }
+        out.push('.');
+    };
     let mut declared: Vec<(String, String)> = Vec::new();
-    for l in lines {
+    for (i, l) in lines.iter().enumerate() {
         match l {
-            Line::Triple { s, p, o, g, pname } => {
+            Line::Triple { s, p, o, g, pname, link } => {
                 let pn = *pname && prefixed;
-                out.push_str(&term_text(s, &declared, pn));
-                out.push(' ');
-                out.push_str(&term_text(p, &declared, pn));
-                out.push(' ');
-                out.push_str(&term_text(o, &declared, pn));
-                if let (Some(g), Format::NQuads) = (g, f) {
-                    out.push_str(&format!(" <{}>", g));
+                let link = if prefixed { *link } else { Link::None };
+                let spo = |out: &mut String, with_subject: bool| {
+                    if with_subject {
+                        out.push_str(&term_text(s, &declared, pn));
+                        out.push(sep);
+                    }
+                    out.push_str(&term_text(p, &declared, pn));
+                    out.push(sep);
+                    out.push_str(&term_text(o, &declared, pn));
+                };
+                match link {
+                    Link::None => {
+                        spo(&mut out, true);
+                        if let (Some(g), Format::NQuads) = (g, f) {
+                            out.push(sep);
+                            out.push_str(&format!("<{}>", g));
+                        }
+                        dot(&mut out);
+                    }
+                    Link::OpenNl => {
+                        spo(&mut out, true);
+                        out.push(sep);
+                        out.push(';');
+                    }
+                    Link::ContNl => {
+                        out.push_str("    ");
+                        spo(&mut out, false);
+                        dot(&mut out);
+                    }
+                    Link::OpenSemi | Link::OpenComma => {
+                        let Some(Line::Triple { p: p2, o: o2, pname: pn2, .. }) = lines.get(i + 1) else { panic!("open link without partner") };
+                        let pn2 = *pn2 && prefixed;
+                        spo(&mut out, true);
+                        out.push(sep);
+                        if link == Link::OpenSemi {
+                            out.push(';');
+                            out.push(sep);
+                            out.push_str(&term_text(p2, &declared, pn2));
+                        } else {
+                            out.push(',');
+                        }
+                        out.push(sep);
+                        out.push_str(&term_text(o2, &declared, pn2));
+                        dot(&mut out);
+                    }
+                    Link::Absorbed => {}
                 }
-                out.push_str(" .");
             }
             Line::Prefix { name, iri } => {
                 if prefixed {
                     declared.push((name.clone(), iri.clone()));
-                    out.push_str(&format!("@prefix {}: <{}> .", name, iri));
+                    out.push_str(&format!("@prefix{}{}:{}<{}>", sep, name, sep, iri));
+                    dot(&mut out);
                 } else {
                     out.push_str(&format!("# @prefix {}: <{}> .", name, iri));
                 }
@@ -323,7 +465,9 @@ pub fn render(lines: &[Line], f: Format) -> String {
             Line::Comment(c) => out.push_str(&format!("# {}", c)),
             Line::Empty => {}
         }
-        out.push('\n');
+        if !(layout == Layout::NoFinalNewline && i + 1 == lines.len()) {
+            out.push_str(eol);
+        }
     }
     out
 }
@@ -387,7 +531,10 @@ impl<'a> Cur<'a> {
         }
         if self.eat("_:") {
             let r = self.rest();
-            let k = r.find(|c: char| c == ' ' || c == '\t').unwrap_or(r.len());
+            let mut k = r.find(|c: char| c == ' ' || c == '\t').unwrap_or(r.len());
+            if r[..k].ends_with('.') {
+                k -= 1; // a label cannot end with '.': it is the statement dot written without white space
+            }
             self.i += k;
             return Ok(Term::Blank(r[..k].to_string()));
         }
@@ -426,7 +573,10 @@ impl<'a> Cur<'a> {
         }
         // prefixed name
         let r = self.rest();
-        let k = r.find(|c: char| c == ' ' || c == '\t').unwrap_or(r.len());
+        let mut k = r.find(|c: char| c == ' ' || c == '\t').unwrap_or(r.len());
+        if r[..k].ends_with('.') {
+            k -= 1; // a local name cannot end with '.': statement dot written without white space
+        }
         let tok = &r[..k];
         self.i += k;
         let (pfx, local) = tok.split_once(':').ok_or_else(|| format!("not a term: {:?}", tok))?;
@@ -437,8 +587,9 @@ impl<'a> Cur<'a> {
 
 pub type AbstractQuad = (Term, Term, Term, Option<String>);
 
-/// Read a generated document back. Line formats are read line by line (prefixes in document order);
-/// RDF/XML by scanning the element structure of the generated layout.
+/// Read a generated document back. N-Triples / N-Quads are read line by line; Turtle / N3 statement by
+/// statement (a statement may be left open with `;` and continue on the next line, `;` and `,` lists),
+/// prefixes in document order; RDF/XML by scanning the element structure of the generated layout.
 pub fn read(text: &str, f: Format) -> Result<Vec<AbstractQuad>, String> {
     if f == Format::RdfXml {
         return read_xml(text);
@@ -446,8 +597,18 @@ pub fn read(text: &str, f: Format) -> Result<Vec<AbstractQuad>, String> {
     let prefixed = matches!(f, Format::Turtle | Format::N3);
     let mut prefixes: Vec<(String, String)> = Vec::new();
     let mut out = Vec::new();
+    // statement state of the prefixed formats
+    #[derive(PartialEq)]
+    enum Expect {
+        Subject,
+        Predicate,
+        Object,
+    }
+    let mut expect = Expect::Subject;
+    let mut cur_s: Option<Term> = None;
+    let mut cur_p: Option<Term> = None;
     for (n, raw) in text.split('\n').enumerate() {
-        let line = raw.trim_matches(|c| c == ' ' || c == '\t');
+        let line = raw.trim_matches(|c| c == ' ' || c == '\t' || c == '\r');
         if line.is_empty() || line.starts_with('#') {
             continue;
         }
@@ -455,6 +616,9 @@ pub fn read(text: &str, f: Format) -> Result<Vec<AbstractQuad>, String> {
         if let Some(rest) = line.strip_prefix("@prefix") {
             if !prefixed {
                 return Err(err("@prefix in a format without prefixes".into()));
+            }
+            if expect != Expect::Subject {
+                return Err(err("@prefix inside an open statement".into()));
             }
             let mut c = Cur { s: rest, i: 0 };
             c.skip_ws();
@@ -464,10 +628,51 @@ pub fn read(text: &str, f: Format) -> Result<Vec<AbstractQuad>, String> {
                 return Err(err("expected <".into()));
             }
             let iri = c.until('>').map_err(err)?.to_string();
+            c.skip_ws();
+            if c.rest() != "." {
+                return Err(err(format!("expected final dot after @prefix, found {:?}", c.rest())));
+            }
             prefixes.push((name, iri));
             continue;
         }
         let mut c = Cur { s: line, i: 0 };
+        if prefixed {
+            loop {
+                c.skip_ws();
+                if c.rest().is_empty() {
+                    break;
+                }
+                match expect {
+                    Expect::Subject => {
+                        cur_s = Some(c.term(&prefixes).map_err(err)?);
+                        expect = Expect::Predicate;
+                    }
+                    Expect::Predicate => {
+                        cur_p = Some(c.term(&prefixes).map_err(err)?);
+                        expect = Expect::Object;
+                    }
+                    Expect::Object => {
+                        let o = c.term(&prefixes).map_err(err)?;
+                        out.push((cur_s.clone().unwrap(), cur_p.clone().unwrap(), o, None));
+                        c.skip_ws();
+                        if c.eat(".") {
+                            expect = Expect::Subject;
+                            c.skip_ws();
+                            if !c.rest().is_empty() {
+                                return Err(err(format!("text after the final dot: {:?}", c.rest())));
+                            }
+                        } else if c.eat(";") {
+                            expect = Expect::Predicate;
+                        } else if c.eat(",") {
+                            expect = Expect::Object;
+                        } else {
+                            return Err(err(format!("expected . ; or , found {:?}", c.rest())));
+                        }
+                    }
+                }
+            }
+            continue;
+        }
         let s = c.term(&prefixes).map_err(err)?;
         let p = c.term(&prefixes).map_err(err)?;
         let o = c.term(&prefixes).map_err(err)?;
@@ -484,6 +689,9 @@ pub fn read(text: &str, f: Format) -> Result<Vec<AbstractQuad>, String> {
             return Err(err(format!("expected final dot, found {:?}", c.rest())));
         }
         out.push((s, p, o, g));
+    }
+    if expect != Expect::Subject {
+        return Err("document ends inside an open statement".into());
     }
     Ok(out)
 }
@@ -513,6 +721,7 @@ fn read_xml(text: &str) -> Result<Vec<AbstractQuad>, String> {
             let subject = Term::Iri(r[..k].to_string());
             let mut r = &r[k + 2..];
             loop {
+                r = r.trim_start();
                 if let Some(r2) = r.strip_prefix("</rdf:Description>") {
                     rest = r2;
                     break;
@@ -557,13 +766,13 @@ pub fn selftest() -> Vec<String> {
             errs.push(format!("loader/{}: {}", name, detail));
         }
     };
-    let t = |s: &str, p: &str, o: Term| Line::Triple { s: Term::iri(s), p: Term::iri(p), o, g: None, pname: false };
+    let t = |s: &str, p: &str, o: Term| Line::Triple { s: Term::iri(s), p: Term::iri(p), o, g: None, pname: false, link: Link::None };
     // hand-computed micro document
     let doc = vec![
         t("http://e/s0", "http://e/p0", Term::iri("http://e/o0")),
         Line::Comment("c".into()),
         Line::Prefix { name: "x".into(), iri: "http://e/".into() },
-        Line::Triple { s: Term::iri("http://e/s1"), p: Term::iri("http://e/p1"), o: Term::lit("a\"b\\c\nd"), g: None, pname: true },
+        Line::Triple { s: Term::iri("http://e/s1"), p: Term::iri("http://e/p1"), o: Term::lit("a\"b\\c\nd"), g: None, pname: true, link: Link::None },
         Line::Empty,
         t("http://e/s2", "http://e/p2", Term::lang("v", "en")),
         t("http://e/s3", "http://e/p0", Term::typed("7", "http://e/dt")),
@@ -606,7 +815,7 @@ pub fn selftest() -> Vec<String> {
         t("http://e/s0", "http://e/p0", Term::iri("http://e/o0#f")),
         Line::Comment("c".into()),
         Line::Prefix { name: "x".into(), iri: "http://e/".into() },
-        Line::Triple { s: Term::iri("http://e/s1"), p: Term::iri("http://e/p1"), o: Term::lit("a\"b\\c\nd"), g: None, pname: true },
+        Line::Triple { s: Term::iri("http://e/s1"), p: Term::iri("http://e/p1"), o: Term::lit("a\"b\\c\nd"), g: None, pname: true, link: Link::None },
         Line::Empty,
     ];
     let xml = "<?xml version=\"1.0\"?>\n<rdf:RDF xmlns:rdf=\"http://www.w3.org/1999/02/22-rdf-syntax-ns#\" xmlns:ex=\"http://e/\" xmlns:x=\"http://e/\">\n<rdf:Description rdf:about=\"http://e/s0\"><ex:p0 rdf:resource=\"http://e/o0#f\"/></rdf:Description>\n<!-- c -->\n<!-- prefix x declared on the root element -->\n<rdf:Description rdf:about=\"http://e/s1\"><x:p1>a\"b\\c\nd</x:p1></rdf:Description>\n\n</rdf:RDF>\n";
@@ -622,8 +831,8 @@ pub fn selftest() -> Vec<String> {
     let qt = Term::quoted(Term::iri("http://e/a"), Term::iri("http://e/q"), Term::lit("v"));
     let nested = Term::quoted(Term::quoted(Term::iri("http://e/a"), Term::iri("http://e/q"), Term::iri("http://e/b")), Term::iri("http://e/q"), Term::iri("http://e/c"));
     let sdoc = vec![
-        Line::Triple { s: qt.clone(), p: Term::iri("http://e/p0"), o: nested.clone(), g: None, pname: false },
-        Line::Triple { s: Term::Blank("b1".into()), p: Term::iri("http://e/p0"), o: Term::lit(""), g: Some("http://e/g1".into()), pname: false },
+        Line::Triple { s: qt.clone(), p: Term::iri("http://e/p0"), o: nested.clone(), g: None, pname: false, link: Link::None },
+        Line::Triple { s: Term::Blank("b1".into()), p: Term::iri("http://e/p0"), o: Term::lit(""), g: Some("http://e/g1".into()), pname: false, link: Link::None },
     ];
     let nq = "<< <http://e/a> <http://e/q> \"v\" >> <http://e/p0> << << <http://e/a> <http://e/q> <http://e/b> >> <http://e/q> <http://e/c> >> .\n_:b1 <http://e/p0> \"\" <http://e/g1> .\n";
     check("render-star", render(&sdoc, Format::NQuads) == nq, render(&sdoc, Format::NQuads));
@@ -639,6 +848,71 @@ pub fn selftest() -> Vec<String> {
     }
     check("star-n3-inexpressible", !document_expressible(&sdoc[..1], Format::N3) && document_expressible(&sdoc[..1], Format::Turtle), "quoted triples: Turtle yes, N3 no".into());
     check("graph-only-nquads", !document_expressible(&sdoc, Format::NTriples) && document_expressible(&sdoc, Format::NQuads), "graph position only in N-Quads".into());
+    // linked pairs (statement punctuation / property lists) and layouts: hand-written renderings
+    let lk = |s: &str, p: &str, o: Term, link: Link| Line::Triple { s: Term::iri(s), p: Term::iri(p), o, g: None, pname: false, link };
+    let ldoc = vec![
+        lk("http://e/s0", "http://e/p0", Term::iri("http://e/o0"), Link::OpenNl),
+        lk("http://e/s0", "http://e/p1", Term::lit("v"), Link::ContNl),
+        lk("http://e/s1", "http://e/p0", Term::iri("http://e/o1"), Link::OpenSemi),
+        lk("http://e/s1", "http://e/p1", Term::lit("w"), Link::Absorbed),
+        lk("http://e/s2", "http://e/p0", Term::iri("http://e/o1"), Link::OpenComma),
+        lk("http://e/s2", "http://e/p0", Term::lit("a  b . c ; d , e # f"), Link::Absorbed),
+    ];
+    let lttl = "<http://e/s0> <http://e/p0> <http://e/o0> ;\n    <http://e/p1> \"v\" .\n<http://e/s1> <http://e/p0> <http://e/o1> ; <http://e/p1> \"w\" .\n\n<http://e/s2> <http://e/p0> <http://e/o1> , \"a  b . c ; d , e # f\" .\n\n";
+    let lnt = "<http://e/s0> <http://e/p0> <http://e/o0> .\n<http://e/s0> <http://e/p1> \"v\" .\n<http://e/s1> <http://e/p0> <http://e/o1> .\n<http://e/s1> <http://e/p1> \"w\" .\n<http://e/s2> <http://e/p0> <http://e/o1> .\n<http://e/s2> <http://e/p0> \"a  b . c ; d , e # f\" .\n";
+    let lxml = "<?xml version=\"1.0\"?>\n<rdf:RDF xmlns:rdf=\"http://www.w3.org/1999/02/22-rdf-syntax-ns#\" xmlns:ex=\"http://e/\">\n  <rdf:Description rdf:about=\"http://e/s0\">\n    <ex:p0 rdf:resource=\"http://e/o0\"/>\n    <ex:p1>v</ex:p1>\n  </rdf:Description>\n\n  <rdf:Description rdf:about=\"http://e/s1\">\n    <ex:p0 rdf:resource=\"http://e/o1\"/>\n    <ex:p1>w</ex:p1>\n  </rdf:Description>\n\n  <rdf:Description rdf:about=\"http://e/s2\">\n    <ex:p0 rdf:resource=\"http://e/o1\"/>\n    <ex:p0>a  b . c ; d , e # f</ex:p0>\n  </rdf:Description>\n\n</rdf:RDF>\n";
+    check("links-well-formed", links_well_formed(&ldoc).is_ok(), format!("{:?}", links_well_formed(&ldoc)));
+    check("links-ill-formed", links_well_formed(&ldoc[1..]).is_err() && links_well_formed(&ldoc[..1]).is_err(), "a partner or an open line alone must be rejected".into());
+    check("render-links-ttl", render(&ldoc, Format::Turtle) == lttl, render(&ldoc, Format::Turtle));
+    check("render-links-n3", render(&ldoc, Format::N3) == lttl, render(&ldoc, Format::N3));
+    check("render-links-nt", render(&ldoc, Format::NTriples) == lnt, render(&ldoc, Format::NTriples));
+    check("render-links-xml", render(&ldoc, Format::RdfXml) == lxml, render(&ldoc, Format::RdfXml));
+    let exp_l: BTreeSet<LexQuad> = [
+        q("http://e/s0", "http://e/p0", "http://e/o0"),
+        q("http://e/s0", "http://e/p1", "v"),
+        q("http://e/s1", "http://e/p0", "http://e/o1"),
+        q("http://e/s1", "http://e/p1", "w"),
+        q("http://e/s2", "http://e/p0", "http://e/o1"),
+        q("http://e/s2", "http://e/p0", "a  b . c ; d , e # f"),
+    ]
+    .into_iter()
+    .collect();
+    for (f, text) in [(Format::Turtle, lttl), (Format::NTriples, lnt), (Format::RdfXml, lxml)] {
+        match expected_from_text(text, f) {
+            Ok(b) => check(&format!("read-links-{}", f.name()), b == exp_l, format!("{:?}", b)),
+            Err(e) => check(&format!("read-links-{}", f.name()), false, e),
+        }
+        check(&format!("expected-links-{}", f.name()), expected_quads(&ldoc, f) == exp_l, "abstract expectation".into());
+    }
+    match expected_from_text(lttl, Format::N3) {
+        Ok(b) => check("read-links-n3", b.contains(&q("http://e/s2", "http://e/p0", "\"a  b . c ; d , e # f\"")) && b.len() == 6, format!("{:?}", b)),
+        Err(e) => check("read-links-n3", false, e),
+    }
+    check("read-open-statement", expected_from_text("<http://e/s0> <http://e/p0> <http://e/o0> ;\n", Format::Turtle).is_err(), "a document ending inside an open statement must be rejected".into());
+    let two = vec![
+        Line::Prefix { name: "x".into(), iri: "http://e/".into() },
+        Line::Triple { s: Term::Blank("b1".into()), p: Term::iri("http://e/p0"), o: Term::iri("http://e/o1"), g: None, pname: true, link: Link::None },
+        t("http://e/s2", "http://e/p2", Term::lang("v", "en")),
+    ];
+    let exp_two: BTreeSet<LexQuad> = [q("_:b1", "http://e/p0", "http://e/o1"), q("http://e/s2", "http://e/p2", "v@en")].into_iter().collect();
+    let layouts: [(Layout, &str); 4] = [
+        (Layout::CrLf, "@prefix x: <http://e/> .\r\n_:b1 x:p0 x:o1 .\r\n<http://e/s2> <http://e/p2> \"v\"@en .\r\n"),
+        (Layout::Tabs, "@prefix\tx:\t<http://e/>\t.\n_:b1\tx:p0\tx:o1\t.\n<http://e/s2>\t<http://e/p2>\t\"v\"@en\t.\n"),
+        (Layout::NoFinalNewline, "@prefix x: <http://e/> .\n_:b1 x:p0 x:o1 .\n<http://e/s2> <http://e/p2> \"v\"@en ."),
+        (Layout::TightDot, "@prefix x: <http://e/>.\n_:b1 x:p0 x:o1.\n<http://e/s2> <http://e/p2> \"v\"@en.\n"),
+    ];
+    for (lay, text) in layouts {
+        check(&format!("render-layout-{:?}", lay), render_with(&two, Format::Turtle, lay) == text, render_with(&two, Format::Turtle, lay));
+        match expected_from_text(text, Format::Turtle) {
+            Ok(b) => check(&format!("read-layout-{:?}", lay), b == exp_two, format!("{:?}", b)),
+            Err(e) => check(&format!("read-layout-{:?}", lay), false, e),
+        }
+    }
+    check("render-layout-nt-tight", render_with(&two[1..], Format::NTriples, Layout::TightDot) == "_:b1 <http://e/p0> <http://e/o1>.\n<http://e/s2> <http://e/p2> \"v\"@en.\n", render_with(&two[1..], Format::NTriples, Layout::TightDot));
+    match expected_from_text("_:b1 <http://e/p0> <http://e/o1>.\r\n<http://e/s2>\t<http://e/p2>\t\"v\"@en.", Format::NTriples) {
+        Ok(b) => check("read-layout-nt", b == exp_two, format!("{:?}", b)),
+        Err(e) => check("read-layout-nt", false, e),
+    }
     // escape / unescape
     for s in ["", "a", "\"", "\\", "\n\r\t", "é😀 <>.#:@^", "\\n"] {
         check("escape-roundtrip", unescape(&escape(s)).as_deref() == Ok(s), format!("{:?}", s));
